@@ -678,3 +678,125 @@ dm_run_system = FunctionContract(
             ("attribute_keep=self.attribute_keep,", "attribute_keep=self.attribute_must,")],
 )
 CONTRACTS.append(dm_run_system)
+
+
+# ------------------------------------------------------------------ do_mapping: where the block placements come from
+MapT, MatchT = TKey('MapT'), TKey('MatchT')
+
+
+def setup_bm(cx):
+    eng = cx.eng
+    mappings = cx.val('MAPPINGS', TSeq(MapT))                # build_graph_mapping_collection(...): the mappings between the two force fields
+    cx.spec_env.update(MAPPINGS=mappings, MapT=MapT)
+    mtype = cx.uf('mtype', [MapT], TStr)
+    found = cx.uf('found', [MapT], TSeq(MatchT))             # mapping.map(molecule, ...): the placements of this mapping on this molecule
+    m_ = z3.Const('bm', MapT.sort())
+    cx.assume(z3.ForAll([m_], TSeq(MatchT).len(found(m_)) >= 0))          # a list
+    molecule, nm, em = Obj('Molecule'), Obj('_old_atomname_match'), Obj('edge_matcher')
+    eng.attr_hooks[('MapT', 'type')] = lambda e, m: SV(TStr, mtype(to_z3(m, MapT)))
+
+    def map_(e, m, mol, node_match=None, edge_match=None):
+        e.oblige(mol is molecule and node_match is nm and edge_match is em, 'placements:searched-on-this-molecule-with-the-atom-name-and-bond-matchers')
+        return SV(TSeq(MatchT), found(to_z3(m, MapT)))
+    eng.methods[('MapT', 'map')] = map_
+    cx.spec_env['_old_atomname_match'] = nm
+    return dict(mappings=mappings, molecule=molecule, edge_matcher=em)
+
+
+SPEC_BM = {
+    'isblock': "lambda m: mtype(MAPPINGS[m]) == 'block'",
+    'cnt': "lambda m: len(found(MAPPINGS[m])) if isblock(m) else 0",
+    # the placements of mapping m sit in one stretch of the list, in the order the search gave them
+    'stretch_ok': "lambda m: m in g_lo and 0 <= g_lo[m] and g_lo[m] + cnt(m) <= len(block_matches) and "
+                  "forall(lambda q: implies(0 <= q and q < cnt(m), block_matches[g_lo[m] + q] == found(MAPPINGS[m])[q]))",
+}
+BM_INV = [
+    "forall(lambda m: implies(0 <= m and m < _i, stretch_ok(m)))",
+    "forall(lambda m: implies(0 <= m and m + 1 < _i, g_lo[m] + cnt(m) == g_lo[m + 1]))",
+    "implies(_i > 0, g_lo[0] == 0 and g_lo[_i - 1] + cnt(_i - 1) == len(block_matches))",
+    "implies(_i == 0, len(block_matches) == 0)",
+]
+block_matches = FunctionContract(
+    F, 'do_mapping', 'C01', short='do_mapping[where the block placements come from]', setup=setup_bm, spec_defs=SPEC_BM,
+    region=dict(start="block_matches = []", end="mod_matches = modification_matches(molecule, mappings)"),
+    locals=dict(g_lo=TMap(TInt, TInt), block_matches=TSeq(MatchT)),
+    ghost_at={'entry': "g_lo = {}"},
+    ensures=[
+        # the list of block placements is, mapping by mapping in the order of the mappings, everything the search of a block mapping
+        # finds on this molecule - nothing is dropped, repeated or taken from a mapping of another kind
+    ] + [c.replace('_i', 'len(MAPPINGS)') for c in BM_INV],
+    loops={'L1': LoopSpec(inv=BM_INV, modifies=['block_matches', 'g_lo'], ghost_pre="g_lo[_i] = len(block_matches)",
+                          ghost_end="prove(forall(lambda m: implies(0 <= m and m < _i, stretch_ok(m))), 'earlier-stretches-untouched')\n"
+                                    "prove(stretch_ok(_i), 'this-stretch')")},
+    canary=[("if mapping.type == 'block':", "if mapping.type != 'modification':"),
+            ("block_matches.extend(mapping.map(molecule, node_match=_old_atomname_match,", "block_matches = list(mapping.map(molecule, node_match=_old_atomname_match,"),
+            ("block_matches.extend(mapping.map(molecule, node_match=_old_atomname_match,", "block_matches.extend(mapping.map(molecule, node_match=None,")],
+)
+CONTRACTS.append(block_matches)
+
+
+# ------------------------------------------------------------------ do_mapping: the order in which block placements are applied
+def setup_bs(cx):
+    eng = cx.eng
+    before = cx.val('FOUND', TSeq(MatchT))                   # the block placements as found (contract above)
+    after = cx.val('ARRANGED', TSeq(MatchT))                 # what sorted() returns
+    cx.spec_env.update(FOUND=before, ARRANGED=after, MatchT=MatchT)
+    lowest = cx.uf('lowest', [MatchT], TInt)                 # min(x[0].keys()): the lowest atom key the placement covers
+    ix, rk = cx.uf('arr_ix', [TInt], TInt), cx.uf('arr_rk', [TInt], TInt)
+    st = TSeq(MatchT)
+
+    other = cx.uf('lowest_of_another_part', [MatchT], TInt)
+
+    def covered(e, x, k):
+        if not isinstance(k, int):
+            raise EngineError('placement[%r]' % (k,))
+        o = Obj('covered', of=x)
+        o.attrs['keys'] = Builtin(lambda e2: Obj('covered-keys', of=x, part=k), 'keys')
+        return o
+    eng.methods[('MatchT', '__getitem__')] = covered
+
+    def min_(e, xs):
+        if not (isinstance(xs, Obj) and xs.cls == 'covered-keys'):
+            raise EngineError('min of something else')
+        return SV(TInt, (lowest if xs.attrs['part'] == 0 else other)(to_z3(xs.attrs['of'], MatchT)))
+
+    def sorted_(e, xs, key=None, reverse=False):
+        # sorted(xs, key=f, reverse=True) by its contract: an arrangement of xs (index maps arr_ix / arr_rk, inverse of each other) in
+        # non-increasing order of f; elements with equal keys keep their order.  The key is evaluated from the real lambda
+        if not (isinstance(xs, SV) and z3.eq(xs.e, before.e)) or key is None:
+            raise EngineError('sorted() of something else')
+        e.oblige(reverse is True, 'order:highest-first')
+        x = z3.Const('sx', MatchT.sort())
+        kv = e.call(key, [SV(MatchT, x)], {})
+        e.oblige(isinstance(kv, SV) and kv.ty == TInt and z3.eq(kv.e, lowest(x)), 'sort-key:the-lowest-atom-of-the-placement')
+        n = st.len(before.e)
+        a, b = z3.FreshInt('sa'), z3.FreshInt('sb')
+        e.assume(st.len(after.e) == n)
+        e.assume(z3.ForAll([a], z3.Implies(z3.And(0 <= a, a < n), z3.And(0 <= ix(a), ix(a) < n, rk(ix(a)) == a, 0 <= rk(a), rk(a) < n, ix(rk(a)) == a,
+                                                                      st.at(after.e, a) == st.at(before.e, ix(a))))))
+        if reverse is True:
+            e.assume(z3.ForAll([a, b], z3.Implies(z3.And(0 <= a, a < b, b < n), z3.Or(
+                lowest(st.at(after.e, a)) > lowest(st.at(after.e, b)),
+                z3.And(lowest(st.at(after.e, a)) == lowest(st.at(after.e, b)), ix(a) < ix(b))))))
+        return after
+    cx.spec_env['min'] = Builtin(min_, 'min')
+    cx.spec_env['sorted'] = Builtin(sorted_, 'sorted')
+    return dict(block_matches=before)
+
+
+block_order = FunctionContract(
+    F, 'do_mapping', 'C01', short='do_mapping[the order of the block placements]', setup=setup_bs,
+    region=dict(start="block_sort_key = lambda x:", end="mod_matches = sorted(mod_matches, key=mod_sort_key, reverse=True)"),
+    ensures=[
+        # the placements are applied - popped from the end of this list - lowest atom first: the list holds every placement found,
+        # once, arranged by the lowest atom key each covers, highest first
+        "len(block_matches) == len(FOUND)",
+        "forall(lambda a: implies(0 <= a and a < len(FOUND), 0 <= arr_ix(a) and arr_ix(a) < len(FOUND) and block_matches[a] == FOUND[arr_ix(a)] and "
+        "   arr_rk(arr_ix(a)) == a and 0 <= arr_rk(a) and arr_rk(a) < len(FOUND) and arr_ix(arr_rk(a)) == a))",
+        "forall(lambda a, b: implies(0 <= a and a < b and b < len(FOUND), lowest(block_matches[a]) >= lowest(block_matches[b])))",
+    ],
+    canary=[("block_sort_key = lambda x: min(x[0].keys())", "block_sort_key = lambda x: min(x[1].keys())"),
+            ("block_matches = sorted(block_matches, key=block_sort_key, reverse=True)", "block_matches = sorted(block_matches, key=block_sort_key)"),
+            ("block_matches = sorted(block_matches, key=block_sort_key, reverse=True)", "block_matches = sorted(block_matches, key=lambda x: -block_sort_key(x), reverse=True)")],
+)
+CONTRACTS.append(block_order)
